@@ -276,6 +276,136 @@ pub fn run_one(fc: &FilterCfg, forms: &[TagExpr], feats: &[gherkin::Feature]) ->
     None
 }
 
+// ---------------------------------------------------------------------------
+// Builder order: a filter given through `with_cli()` must survive every builder
+// method applied afterwards. Checked in a child process with a clean argv: if
+// a method drops the options, `filter_run` falls back to parsing the process
+// arguments (and `clap` would exit the process on ours).
+
+pub const ORDER_METHODS: [&str; 14] = [
+    "before", "after", "which_scenario", "steps", "given", "max_concurrent_scenarios", "retries",
+    "fail_fast", "retry_after", "retry_filter", "retry_options", "repeat_skipped", "repeat_failed",
+    "fail_on_skipped",
+];
+const ORDER_FILTERS: [(Option<usize>, Option<usize>); 3] = [(None, Some(0)), (Some(0), None), (None, Some(4))];
+
+fn started_names(rec: &Rec) -> Vec<String> {
+    let mut v = Vec::new();
+    for e in rec.events() {
+        if let crate::canon::Ev::Sc { s, ev: crate::canon::ScEv::Started, .. } = e {
+            v.push(s);
+        }
+    }
+    v
+}
+
+/// Runs one (method, filter) pair; returns `None` if the filter was honoured.
+pub fn order_case(m: usize, fi: usize) -> Option<String> {
+    use cucumber::{runner::Basic, ScenarioType, WriterExt as _};
+    let forms = formulas();
+    let (re, tags) = ORDER_FILTERS[fi];
+    let fc = FilterCfg { re, tags, closure: None, via_clap: false };
+    let feat = features().swap_remove(200);
+    let expected: Vec<String> = {
+        let e = expected(&fc, &forms, &feat);
+        e.scenarios.iter().chain(e.rules.iter().flat_map(|r| &r.scenarios)).map(|s| s.name.clone()).collect()
+    };
+    let all: usize = feat.scenarios.len() + feat.rules.iter().map(|r| r.scenarios.len()).sum::<usize>();
+    let c = Cucumber::<TW, StubParser, (), Basic<TW>, Rec, cli::Empty>::custom(
+        StubParser(vec![feat]),
+        Basic::default(),
+        Rec::default(),
+    )
+    .with_cli(opts(&fc, &forms));
+    fn finish<R, Wr>(c: Cucumber<TW, StubParser, (), R, Wr, cli::Empty>, get: fn(&Wr) -> Vec<String>) -> Vec<String>
+    where
+        R: Runner<TW>,
+        Wr: cucumber::Writer<TW> + cucumber::writer::Normalized,
+    {
+        let w = futures::executor::block_on(c.run(()));
+        get(&w)
+    }
+    let plain = |w: &Rec| started_names(w);
+    let got = match ORDER_METHODS[m] {
+        "before" => finish(c.before(crate::hs::before_hook), plain),
+        "after" => finish(c.after(crate::hs::after_hook), plain),
+        "which_scenario" => finish(c.which_scenario(|_, _, _| ScenarioType::Concurrent), plain),
+        "steps" => finish(c.steps(crate::spec::collection()), plain),
+        "given" => finish(c.given(Regex::new("^never$").unwrap(), crate::hs::step_fn), plain),
+        "max_concurrent_scenarios" => finish(c.max_concurrent_scenarios(2), plain),
+        "retries" => finish(c.retries(1), plain),
+        "fail_fast" => finish(c.fail_fast(), plain),
+        "retry_after" => finish(c.retry_after(std::time::Duration::from_millis(1)), plain),
+        "retry_filter" => finish(c.retry_filter("@a".parse::<TagOperation>().unwrap()), plain),
+        "retry_options" => finish(c.retry_options(|_, _, _, _| None), plain),
+        "repeat_skipped" => finish(c.repeat_skipped(), |w| started_names(w.inner_writer())),
+        "repeat_failed" => finish(c.repeat_failed(), |w| started_names(w.inner_writer())),
+        _ => finish(c.fail_on_skipped(), |w| started_names(w.inner_writer())),
+    };
+    // Repeat re-emits nothing that is a scenario Started, so the lists compare directly
+    (got != expected).then(|| {
+        format!(
+            "with_cli(filter {fc:?}) followed by .{}(..): scenarios run {got:?}, the filter accepts {expected:?} (of {all})",
+            ORDER_METHODS[m]
+        )
+    })
+}
+
+/// Entry point of the child process (`VERIF_C15_ORDER=m:f`, no arguments).
+pub fn order_child(spec: &str) -> i32 {
+    let (m, f) = spec.split_once(':').expect("m:f");
+    std::panic::set_hook(Box::new(|_| {}));
+    match order_case(m.parse().unwrap(), f.parse().unwrap()) {
+        None => {
+            println!("ORDER-OK");
+            0
+        }
+        Some(msg) => {
+            println!("ORDER-BAD {msg}");
+            0
+        }
+    }
+}
+
+fn order_checks(a: &ShardArgs, violations: &mut Vec<serde_json::Value>) -> usize {
+    let exe = std::env::current_exe().expect("exe");
+    let mut n = 0;
+    for m in 0..ORDER_METHODS.len() {
+        for f in 0..ORDER_FILTERS.len() {
+            n += 1;
+            if !a.mine(n) {
+                continue;
+            }
+            let out = std::process::Command::new(&exe).env("VERIF_C15_ORDER", format!("{m}:{f}")).output();
+            let verdict = match out {
+                Ok(o) => {
+                    let so = String::from_utf8_lossy(&o.stdout).into_owned();
+                    if so.contains("ORDER-OK") {
+                        None
+                    } else if let Some(i) = so.find("ORDER-BAD ") {
+                        Some(so[i + 10..].trim().to_owned())
+                    } else {
+                        Some(format!(
+                            "with_cli(..) followed by .{}(..): the run did not use the given options (child exited with {:?}: {})",
+                            ORDER_METHODS[m],
+                            o.status.code(),
+                            String::from_utf8_lossy(&o.stderr).lines().next().unwrap_or("")
+                        ))
+                    }
+                }
+                Err(e) => Some(format!("cannot spawn the child process: {e}")),
+            };
+            if let Some(msg) = verdict {
+                violations.push(json!({
+                    "engine": "hist", "property": "C15", "tier": a.tier, "key": "filter-lost-by-builder",
+                    "order_case": format!("{m}:{f}"), "message": msg,
+                }));
+            }
+        }
+    }
+    n
+}
+
 pub fn run(a: &ShardArgs) -> serde_json::Value {
     let feats = features();
     let forms = formulas();
@@ -332,17 +462,32 @@ pub fn run(a: &ShardArgs) -> serde_json::Value {
             }
         }
     }
+    let order_n = order_checks(a, &mut violations);
+    evaluations += order_n / a.sn.max(1);
     json!({
         "property": "C15", "tier": a.tier,
         "total_configs": fcs.len() * groups.len(), "configs_done": evaluations, "configs_skipped_budget": skipped,
         "evaluations": evaluations, "distinct_nontrivial": nontrivial,
-        "rule": format!("{} filter configurations ({} tag formulas of depth <= 2 over {{a,b}} directly and through clap, 4 name regexes, 4 closures, precedence combinations) x {} feature groups (576 features: tags on feature x rule x scenarios); non-trivial = the filter keeps some but not all scenarios", fcs.len(), forms.len(), groups.len()),
+        "rule": format!("{} filter configurations ({} tag formulas of depth <= 2 over {{a,b}} directly and through clap, 4 name regexes, 4 closures, precedence combinations) x {} feature groups; plus 14 builder methods applied after with_cli(filter) x 3 filters, each in a child process with a clean argv (576 features: tags on feature x rule x scenarios); non-trivial = the filter keeps some but not all scenarios", fcs.len(), forms.len(), groups.len()),
         "exhaustive": skipped == 0,
         "violations": violations, "samples": samples,
     })
 }
 
 pub fn replay(j: &serde_json::Value) -> i32 {
+    if let Some(spec) = j["order_case"].as_str() {
+        let (m, f) = spec.split_once(':').unwrap();
+        return match order_case(m.parse().unwrap(), f.parse().unwrap()) {
+            Some(msg) => {
+                println!("violation C15: {msg}");
+                1
+            }
+            None => {
+                println!("holds");
+                0
+            }
+        };
+    }
     let feats = features();
     let forms = formulas();
     let fcs = filter_cfgs(forms.len());
